@@ -56,7 +56,7 @@ func NewSimpleHTTP() *SimpleHTTPDef {
 func NewSimpleHTTPWithClientAndInterceptors(client *http.Client, interceptors ...*Interceptor) *SimpleHTTPDef {
 	newOne := &SimpleHTTPDef{
 		client:       client,
-		interceptors: fpgo.StreamDef[*Interceptor](interceptors),
+		interceptors: append(fpgo.StreamDef[*Interceptor]{}, interceptors...), // the variadic slice stays the caller's
 	}
 	newOne.SetHTTPClient(client)
 	return newOne
